@@ -26,7 +26,7 @@ def main():
         checks = sys.argv[sys.argv.index("--checks") + 1].split(",")
     dst = VERIF / "seeded" / f"{pid}_{var}"
     src = Path(f"/tmp/seed_{pid}_out/{var}")
-    if not src.exists():
+    if not src.exists() or (dst / "meta.json").exists():
         src = dst                       # re-validation of a stored change against the current HEAD
     wt = Path(f"/tmp/sc_{pid}_{var}")
     if wt.exists():
@@ -41,6 +41,15 @@ def main():
         orig = old_meta.get("orig_commit") or old_meta.get("checked_at_repo_commit")
         meta["orig_commit"] = orig or meta["checked_at_repo_commit"]
         head = sh("git -C /repo rev-parse HEAD")[1].strip()
+        if old_meta.get("note"):
+            meta["note"] = old_meta["note"]
+        if (src / "superseded.txt").exists() and not (src / "patch_head.diff").exists():
+            # the mechanism of this change no longer exists on HEAD (a later fix removed the code path): kept for the
+            # record with its last verdict, not re-validated
+            meta = dict(old_meta, checked_at_repo_commit=meta["checked_at_repo_commit"], superseded=True,
+                        note=(src / "superseded.txt").read_text().strip())
+            (dst / "meta.json").write_text(json.dumps(meta, indent=1))
+            print(json.dumps({"superseded": meta["note"]}, indent=1)); return 0
         if (src / "patch_head.diff").exists():
             patch = src / "patch_head.diff"
             rc, out = sh(f"git -C {wt} apply {patch}")
